@@ -1,12 +1,58 @@
 package main
 
 import (
+	"os"
+	"path/filepath"
+
 	ucfg "github.com/elastic/go-ucfg"
 	"github.com/elastic/go-ucfg/cfgutil"
 	"github.com/elastic/go-ucfg/flag"
+	"github.com/elastic/go-ucfg/json"
+	"github.com/elastic/go-ucfg/yaml"
 )
 
-func init() { kinds["flags"] = kFlags }
+func init() { kinds["flags"] = kFlags; kinds["fileflags"] = kFileFlags }
+
+// fileflags: {"files": [{"name": base, "ext": ".yml"|".json"|..., "text": content, "missing": bool}], "opts": [...], "fallback": bool}
+// flag.NewFlagFiles with loaders for .yml and .json (and the "" fallback when asked for); one Set per file
+func kFileFlags(c J) interface{} {
+	opts := buildOpts(c["opts"])
+	dir, err := os.MkdirTemp("", "vflag")
+	if err != nil {
+		return J{"harness": "tempdir: " + err.Error()}
+	}
+	defer os.RemoveAll(dir)
+	ext := map[string]flag.FileLoader{".yml": yaml.NewConfigWithFile, ".json": json.NewConfigWithFile}
+	if boolD(c, "fallback", false) {
+		ext[""] = yaml.NewConfigWithFile
+	}
+	fv := flag.NewFlagFiles(nil, ext, opts...)
+	set := []interface{}{}
+	setErr := []interface{}{}
+	for i, f := range arr(c, "files") {
+		fj := f.(map[string]interface{})
+		name := filepath.Join(dir, itoa(i)+str(fj, "name")+str(fj, "ext"))
+		if !boolD(fj, "missing", false) {
+			if werr := os.WriteFile(name, []byte(str(fj, "text")), 0o600); werr != nil {
+				return J{"harness": "write: " + werr.Error()}
+			}
+		}
+		err := fv.Set(name)
+		set = append(set, err != nil)
+		if e := fv.Error(); e != nil {
+			setErr = append(setErr, e.Error())
+		} else {
+			setErr = append(setErr, nil)
+		}
+	}
+	var errv, errText interface{}
+	if e := fv.Error(); e != nil {
+		errv = J{"set": true}
+		errText = e.Error()
+	}
+	col := cfgutil.NewCollector(ucfg.New(), opts...)
+	return J{"config": viewPlain(fv.Config()), "err": errv, "set": set, "setErr": setErr, "errText": errText, "optsKept": len(col.GetOptions()) == len(opts)}
+}
 
 // flags: {"args": [...], "opts": [...], "autoBool": bool}
 func kFlags(c J) interface{} {
